@@ -410,7 +410,9 @@ class C04(Check):
             K = 2
         else:
             us += [first_reaction_unit(3, 3), first_reaction_unit(2, 4), first_reaction_unit(4, 2)]
-            us += [tau_leap_unit(3, 2, False), tau_leap_unit(3, 2, True), tau_leap_unit(2, 3, False), tau_leap_unit(2, 3, True)]
+            # (adaptive tau with 3 events forks 4^3 ways inside _get_adaptive_tau_step: 10k paths, one hour -- measured;
+            #  the adaptive routine is covered with 2 events, 3 events run with a fixed symbolic tau)
+            us += [tau_leap_unit(3, 2, False), tau_leap_unit(3, 2, True), tau_leap_unit(2, 3, True)]
             specs = shape_specs()
             K = 3
         for s in specs:
